@@ -26,3 +26,12 @@ func (r *Runtime) VerifC14Handles() []VerifC14Handle {
 	}
 	return out
 }
+
+// VerifC14Barrier returns once no reader holds handleMu: called after the
+// rt.line.recv hook event of a line (emitted under the fan-out's RLock) it
+// returns only after the fan-out loop has offered that line to every handle.
+func (r *Runtime) VerifC14Barrier() {
+	r.handleMu.Lock()
+	//nolint:staticcheck // empty critical section is the point
+	r.handleMu.Unlock()
+}
